@@ -191,6 +191,9 @@ pub struct FaultPlan {
     pub ports_in_use: HashSet<u16>,
     /// Percent of binds (on stream sockets) that fail with EADDRINUSE.
     pub bind_in_use_pct: u8,
+    /// Every `send_to` of a datagram with this TTL / hop limit fails with the errno (a route
+    /// that rejects one particular hop distance: a persistent transient failure).
+    pub send_fails_for_ttl: Option<(u8, i32)>,
 }
 
 #[derive(Debug, Clone)]
@@ -1390,6 +1393,12 @@ impl VerifSocket for SimSocket {
             }
             _ => return fail(&mut w, libc::EOPNOTSUPP),
         };
+        if let Some((ttl, errno)) = w.cfg.faults.send_fails_for_ttl {
+            let dgram_ttl = if v6 { bytes.get(7).copied() } else { bytes.get(8).copied() };
+            if dgram_ttl == Some(ttl) {
+                return fail(&mut w, errno);
+            }
+        }
         let (wid, pkts, _) = w.emit(t, self.tracer, self.id, bytes, Some(buf.to_vec()), v6);
         let nudges = w.deliver(&pkts);
         w.log(t, self.tracer, self.id, Op::SendTo, Ev::SendTo { addr, len: buf.len(), wire: Some(wid) }, None);
